@@ -195,6 +195,41 @@ func epCrash(which string) func(e *srvx.Episode) {
 	}
 }
 
+// the signed-channel episode: channel A is Basic256Sha256 / Sign (or SignAndEncrypt), sessions carry the
+// client certificate and are activated with a real client signature; channel B stays None
+func epSigned(e *srvx.Episode) {
+	e.Cast()
+	v := int32(500)
+	for _, kind := range allKinds {
+		for _, q := range safeRequests(v) {
+			if q.m == "publish" && (kind == "valid" || kind == "validB" || kind == "notactivated") && kind != "valid" {
+				continue // one queued publish (kind valid) is enough: each costs a timeout
+			}
+			e.Do(kind, q.m, q.r, "signed channel")
+			v++
+		}
+		res := e.Do(kind, "createsub huge", srvx.CreateSubReq(3600000, 100000, 100000), "signed channel")
+		if cr, ok := res.Resp.(*ua.CreateSubscriptionResponse); ok {
+			e.Do(kind, fmt.Sprintf("delsubs %d", cr.SubscriptionID), srvx.DeleteSubsReq(cr.SubscriptionID), "")
+		}
+		e.Do(kind, "other CallRequest", srvx.StubRequest("CallRequest"), "signed channel")
+	}
+	// activation: a wrong client signature is refused and leaves the session as it was; the right one
+	// activates it; a token without session is refused before any signature is looked at
+	tmp := e.NewSession("missing", false, false)
+	if tmp.Tok != nil {
+		e.Activate(tmp, false)
+		saveN := e.NotAct
+		e.NotAct = tmp
+		e.Do("notactivated", "read", srvx.ReadReq(srvx.TestVar(), ua.AttributeIDValue), "session whose activation was refused")
+		e.Do("notactivated", "write 777", srvx.WriteValueReq(srvx.TestVar(), 777), "session whose activation was refused")
+		e.NotAct = saveN
+		e.Activate(tmp, true)
+	}
+	e.Do("unknown", "activate 1 0", srvx.ActivateSessionReq([]byte{1, 2, 3}, "x"), "")
+	e.Do("closed", "activate 1 0", srvx.ActivateSessionReq([]byte{1, 2, 3}, "x"), "")
+}
+
 func classify(kind, fam string) string {
 	if kind == "notactivated" {
 		return "C35.not-activated-session-accepted"
@@ -232,6 +267,14 @@ func evaluate(r *h.Result, d *h.Driver, e *srvx.Episode) {
 				}
 			case "activate":
 				created := valid || x.Kind == "notactivated"
+				if created && x.Req == "activate 1 0" {
+					// a wrong client signature on a signed channel must be refused and change nothing
+					if oc != "fault" || changed {
+						r.Fail(cs, "", "ActivateSession with a wrong client signature: "+x.Out)
+					}
+					r.Hit("activation-refused-bad-signature")
+					continue
+				}
 				if !created && (oc != "sessionerr" || changed) {
 					r.Fail(cs, "", "ActivateSession for a token without session: "+x.Out)
 				}
@@ -286,7 +329,7 @@ func main() {
 		name string
 		run  func(*srvx.Episode)
 	}
-	eps := []epdef{{"matrix", epMatrix}, {"crash-delsubs", epCrash("delsubs")}, {"crash-createitems", epCrash("createitems")},
+	eps := []epdef{{"matrix", epMatrix}, {"signed", epSigned}, {"crash-delsubs", epCrash("delsubs")}, {"crash-createitems", epCrash("createitems")},
 		{"crash-setmode", epCrash("setmode")}, {"crash-delitems", epCrash("delitems")}}
 	if o.Replay != "" {
 		var keep []epdef
@@ -301,6 +344,20 @@ func main() {
 	var wg sync.WaitGroup
 	for i, def := range eps {
 		e := srvx.NewEpisode(def.name, o, rnd.Fork(), srvx.ChildSpec{})
+		if def.name == "signed" {
+			ka, err1 := h.LoadKey(o.Keys, 2048, "a")
+			kb, err2 := h.LoadKey(o.Keys, 2048, "b")
+			if err1 != nil || err2 != nil {
+				r.InfraError = fmt.Sprint("keys: ", err1, err2)
+				r.Write(o.Out)
+				return
+			}
+			e.SecPolicy, e.SecMode = ua.SecurityPolicyURIBasic256Sha256, ua.MessageSecurityModeSign
+			if o.Seed%2 == 0 || o.Thorough() {
+				e.SecMode = ua.MessageSecurityModeSignAndEncrypt
+			}
+			e.Client, e.ServerCertDER = &srvx.Identity{Key: kb.Key, Cert: kb.CertDER}, ka.CertDER
+		}
 		out[i] = e
 		wg.Add(1)
 		go func(e *srvx.Episode, run func(*srvx.Episode)) {
@@ -316,7 +373,7 @@ func main() {
 		evaluate(r, d, e)
 	}
 	for _, b := range []string{"out:ok", "out:sessionerr", "out:fault", "out:noresponse", "served-valid", "refused:publish",
-		"refused:subscription", "refused:monitoreditems",
+		"refused:subscription", "refused:monitoreditems", "activation-refused-bad-signature",
 		"violation:C35.read-without-session", "violation:C35.write-without-session", "violation:C35.browse-without-session",
 		"violation:C35.unsupported-without-session", "violation:C35.not-activated-session-accepted"} {
 		if r.Distribution[b] == 0 && o.Replay == "" {
